@@ -77,7 +77,7 @@ Proof.
       destruct n as [|[|[|n]]]; try lia; unfold apply_calls; cbn [fst firstn fold_left apply_call];
       try exact L; apply put_absent_keeps; assumption.
   - destruct (lookup s rid) as [oks|] eqn:E; [|cbn [fst List.length] in Hn; destruct n; [exact L|lia]].
-    destruct (negb (kt_template (ks_kt oks))); [cbn [fst List.length] in Hn; destruct n; [exact L|lia]|].
+    destruct (negb (kt_rotatable (ks_kt oks))); [cbn [fst List.length] in Hn; destruct n; [exact L|lia]|].
     unfold Fixed in *; cbn [v_rot] in *.
     destruct (lookup s (new_id (ks_kt oks) p p)) eqn:E2; cbn [fst List.length] in Hn;
       destruct n as [|[|[|[|n]]]]; try lia; unfold apply_calls; cbn [fst firstn fold_left apply_call];
@@ -178,7 +178,7 @@ Proof.
     match goal with |- context [lookup s ?i] => destruct (lookup s i) eqn:E end; sc; [exact L|].
     apply put_absent_keeps; assumption.
   - destruct (lookup s rid) as [oks|] eqn:E; sc; [|left; exact L].
-    destruct (negb (kt_template (ks_kt oks))); sc; [left; exact L|].
+    destruct (negb (kt_rotatable (ks_kt oks))); sc; [left; exact L|].
     destruct (lookup s (new_id (ks_kt oks) p p)) eqn:E2; sc; [left; exact L|].
     destruct (kid_eqb id rid) eqn:EQ.
     + apply kid_eqb_eq in EQ; subst rid. right. split; [reflexivity|].
@@ -284,7 +284,7 @@ Proof.
       eexists. split; [apply lookup_put_same|]. split; [reflexivity|].
       intros k' [<-|[]]. left; reflexivity.
     + destruct (lookup s rid) as [oks|] eqn:E; sca; [|destruct H; discriminate].
-      destruct (negb (kt_template (ks_kt oks))); sca; [destruct H; discriminate|].
+      destruct (negb (kt_rotatable (ks_kt oks))); sca; [destruct H; discriminate|].
       destruct (v_rot v).
       * destruct (lookup (remove s rid) (new_id (ks_kt oks) p p)) eqn:E2; sca; [destruct H; discriminate|].
         destruct H as [H|H]; inversion H; subst.
@@ -301,7 +301,7 @@ Proof.
         exists rid, oks. split; assumption.
     + destruct (lookup s gid); destruct H; discriminate.
     + destruct (lookup s eid) as [ks|]; [|destruct H; discriminate].
-      destruct (kt_random_id (ks_kt ks)); [destruct H; discriminate|].
+      destruct (kt_random_id (ks_kt ks) || negb (kt_exportable (ks_kt ks))); [destruct H; discriminate|].
       destruct (primary ks); destruct H; discriminate.
     + destruct H; discriminate.
 Qed.
@@ -341,7 +341,7 @@ Proof.
   - destruct (negb (kt_importable kt)); [exact I|].
     match goal with |- context [lookup s ?i] => destruct (lookup s i) eqn:E end; cbn; auto.
   - destruct (lookup s rid) as [oks|] eqn:E; [|cbn; auto].
-    destruct (negb (kt_template (ks_kt oks))); [cbn; auto|].
+    destruct (negb (kt_rotatable (ks_kt oks))); [cbn; auto|].
     destruct (v_rot v).
     + destruct (lookup (remove s rid) (new_id (ks_kt oks) p p)) eqn:E2; cbn; auto.
     + destruct (lookup s (new_id (ks_kt oks) p p)) eqn:E2; cbn; auto.
@@ -381,7 +381,7 @@ Proof.
   intros v st old ks c id k L A H.
   destruct (step_cases v st (KRotate old) c) as [(n & pre & -> & S & C & O) | (C & O)];
     rewrite O in H; [discriminate|]. cbn [plan] in H. rewrite L in H.
-  destruct (negb (kt_template (ks_kt ks))); [discriminate|].
+  destruct (negb (kt_rotatable (ks_kt ks))); [discriminate|].
   unfold new_id in H. rewrite A in H.
   destruct (v_rot v).
   - destruct (lookup (remove (st_store st) old) (KThumb (st_pos st))); cbn in H; [discriminate|].
@@ -390,8 +390,7 @@ Proof.
     inversion H; subst. split; reflexivity.
 Qed.
 
-Definition import_thumb_type (kt : ktype) : bool :=
-  kt_kid_defined kt && negb (match kt with K_ECDSASecp256k1DER => true | _ => false end).
+Definition import_thumb_type (kt : ktype) : bool := kt_kid_defined kt && kt_exportable kt.
 
 Lemma import_id : forall st kt u k c id k',
   snd (step Fixed st (KImport kt u k, c)) = OId id k' ->
@@ -489,7 +488,7 @@ Proof.
     split; auto. intros k' E'. destruct u; [discriminate|].
     destruct (v_import_thumb v && kt_kid_defined kt && _); inversion E'; subst. reflexivity.
   - destruct (lookup s rid) as [oks|]; [|cbn [calls_wf fst]; auto].
-    destruct (negb (kt_template (ks_kt oks))); [cbn [calls_wf fst]; auto|].
+    destruct (negb (kt_rotatable (ks_kt oks))); [cbn [calls_wf fst]; auto|].
     destruct (v_rot v).
     + destruct (lookup (remove s rid) (new_id (ks_kt oks) p p)); cbn [calls_wf fst]; auto.
       split; auto. intros k E. apply new_id_thumb in E. subst. apply primary_snoc.
@@ -561,3 +560,17 @@ Proof. destruct k; cbn; tauto. Qed.
 
 Lemma didkey_readable_all : forall kt ce, build_didkey kt = Some ce -> didkey_readable ce = true.
 Proof. intros kt ce H. destruct kt; vm_compute in H; inversion H; subst; reflexivity. Qed.
+
+(* a keyset whose type cannot be rotated (no template, or — ECDSASecp256k1DER — no exportable public key to derive the
+   new id from) is left alone by Rotate *)
+Lemma rotate_refused_keeps_store : forall v st id ks c,
+  lookup (st_store st) id = Some ks -> kt_rotatable (ks_kt ks) = false ->
+  st_store (fst (step v st (KRotate id, c))) = st_store st /\
+  (snd (step v st (KRotate id, c)) = OErr \/ snd (step v st (KRotate id, c)) = OCrashed).
+Proof.
+  intros v st id ks c L R. rewrite step_store.
+  destruct (step_cases v st (KRotate id) c) as [(n & pre & -> & S & C & O) | (C & O)].
+  - split; [|right; exact O]. rewrite C. cbn [plan fst] in S. rewrite L, R in S. cbn [negb fst] in S.
+    destruct (cut_is_prefix _ _ _ S) as (m & Hm & ->). cbn in Hm. destruct m; [reflexivity|lia].
+  - rewrite C, O. cbn [plan]. rewrite L, R. cbn. split; [reflexivity | left; reflexivity].
+Qed.
